@@ -668,7 +668,7 @@ class Scenario:
                 # reaching definitions: a definition counts only if it can reach the node being evaluated
                 # without being overwritten by another definition of the same name
                 others = set(self._defnodes.get(e.id, []))
-                reaching = [dn for dn in nodes if self.g.search([dn], lambda x: x is at, skip_node=lambda x, dn=dn: x in others and x is not dn and x is not at) is not None]
+                reaching = [dn for dn in nodes if self.g.search([dn], lambda x: x is at, skip_node=lambda x, dn=dn: x in others and x is not dn and x is not at, skip_edge=self._known_skip) is not None]
                 if reaching:
                     nodes = reaching
             n_defs = len([1 for k, _ in self.deps.defs(owner, e.id)])
@@ -716,6 +716,25 @@ class Scenario:
         """Reachable branch points whose outcome the scenario does not determine (both edges were kept)."""
         return [n for n in self.g.nodes if n.id in self.reach and n.kind in ("test", "match-case") and self._cache.get(n.id, NOVALUE) is NOVALUE]
 
+    def reaching_values(self, node: Node, name: str) -> list[ast.AST] | None:
+        """Defining expressions of local `name` that can reach `node` in this scenario (None when the name has
+        definitions that are not plain assignments)."""
+        owner = self.deps.owner(name)
+        if owner is not self.deps.fi:
+            return None
+        kinds = {k for k, _ in self.deps.defs(owner, name)}
+        if kinds - {"value"}:
+            return None
+        alldefs = set(self._defnodes.get(name, []))
+        out = []
+        for dn in alldefs:
+            if dn.id not in self.reach or getattr(dn.ast, "_inline_init", False) or dn is node:
+                continue
+            starts = [t for t, lab in dn.succ if lab not in ("exc", "reraise") and not self._known_skip(dn, t, lab)]
+            if self.g.search(starts, lambda x: x is node, skip_node=lambda x, dn=dn: x in alldefs and x is not dn and x is not node, skip_edge=self._known_skip, include_start=True) is not None:
+                out.append(dn.ast.value)
+        return out
+
     def values_of(self, name: str) -> list[ast.AST]:
         """Defining expressions of a local that are reachable in this scenario."""
         return [n.ast.value for n in self._defnodes.get(name, []) if n.id in self.reach and not getattr(n.ast, "_inline_init", False)]
@@ -736,3 +755,16 @@ def classify_handler_for(g: CFG, h: ast.ExceptHandler, exc_class: str) -> list[t
         return NOVALUE
 
     return classify_handler(g, h, skip_edge=scenario(g, env))
+
+
+def reduce_ifexp(e: ast.AST | None, env: Callable[[ast.AST], object]) -> ast.AST | None:
+    """Strip conditional expressions whose test the scenario decides: `a if t else b` -> a / b."""
+    from .astutil import unwrap
+
+    e = unwrap(e) if e is not None else None
+    while isinstance(e, ast.IfExp):
+        t = eval_expr(e.test, env)
+        if t is NOVALUE:
+            break
+        e = unwrap(e.body if t else e.orelse)
+    return e
